@@ -12,6 +12,8 @@ Inline  = ("t", word) | ("i", inlines) | ("b", inlines) | ("tag", name, inlines)
         | ("ext", url_word, caption_inlines_or_None) | ("ref", inlines) | ("refp", [inlines, ...])   (a reference of several paragraphs)
         | ("refn", name, inlines) | ("refuse", name)      (a named reference and a later use of it)
         | ("nslink", prefix, target_word, caption_inlines)   (a link into another namespace: [[Prefix:Word|caption]])
+        | ("elide", "i"|"b", word, inlines)   (elision in front of styled text, as in l'''Encyclopédie'': word + literal apostrophe + style)
+        | ("nl",)                              (a single line break inside the paragraph)
 """
 import itertools
 
@@ -70,6 +72,10 @@ def library():
     add("p-ref-named-late", lambda k: named(k, "late"))
     add("p-ref-two-links", lambda k: ("p", [T(k), ("ref", [T(k), ("link", k(), [T(k)]), T(k), ("link", k(), [T(k), T(k)]), ("link", k(), None)])]))
     add("p-ref-two-extlinks", lambda k: ("p", [T(k), ("ref", [("ext", k(), [T(k)]), T(k), ("ext", k(), [T(k)])])]))
+    # elisions in front of styled text on several lines of ONE paragraph (everyday French/Italian markup)
+    add("p-elision-lines", lambda k: ("p", [T(k), ("elide", "i", k(), [T(k)]), T(k), ("nl",), T(k), ("elide", "i", k(), [T(k)]), T(k), ("nl",),
+                                            T(k), ("elide", "b", k(), [T(k)]), T(k)]))
+    add("p-elision", lambda k: ("p", [T(k), ("elide", "i", k(), [T(k)]), T(k)]))
     add("p-italic-link", lambda k: ("p", [("i", [("link", k(), [T(k)])])]))
     add("ul", lambda k: ("list", "*", [([T(k)], None), ([T(k)], None)]))
     add("ol", lambda k: ("list", "#", [([T(k)], None), ([T(k)], None)]))
@@ -177,7 +183,7 @@ def space(tier, name="grammar"):
 
 # ----------------------------------------------------------------------------- serialisation
 def ser_inlines(ins, v):
-    return " ".join(ser_inline(i, v) for i in ins)
+    return " ".join(ser_inline(i, v) for i in ins).replace(" \n ", "\n")
 
 
 def ser_inline(i, v):
@@ -197,6 +203,14 @@ def ser_inline(i, v):
         if i[2] is None:
             return "[[%s]]" % tgt
         return "[[%s|%s]]" % (tgt, ser_inlines(i[2], v))
+    if k == "elide":
+        inner = ser_inlines(i[3], v)
+        if v == "html":
+            return "%s'<%s>%s</%s>" % (i[2], i[1], inner, i[1])
+        q = "''" if i[1] == "i" else "'''"
+        return "%s'%s%s%s" % (i[2], q, inner, q)
+    if k == "nl":
+        return "\n"
     if k == "nslink":
         return "[[%s:%s|%s]]" % (i[1], i[2].capitalize(), ser_inlines(i[3], v))
     if k == "ext":
@@ -310,6 +324,11 @@ def denote(doc):
                     out.append((i[1], chain + ("ArticleLink:" + tgt, "@target")))
                 else:
                     inl(i[2], chain + ("ArticleLink:" + tgt,))
+            elif k == "elide":
+                out.append((i[2], chain))
+                inl(i[3], chain + ("Emphasized" if i[1] == "i" else "Strong",))
+            elif k == "nl":
+                pass
             elif k == "nslink":
                 inl(i[3], chain + ("NamespaceLink:%s:%s" % (i[1], i[2].capitalize()),))
             elif k == "ext":
@@ -370,6 +389,21 @@ def denote(doc):
             chain = tuple("Section:%d" % l for l in secs)
             block(b, chain)
     return out
+
+
+def extras(doc):
+    """the visible characters of the document that are not tokens (literal apostrophes of elisions), in order"""
+    out = []
+
+    def rec(x):
+        if isinstance(x, tuple) and x and x[0] == "elide":
+            out.append("'")
+            rec(x[3])
+        elif isinstance(x, (list, tuple)):
+            for y in x:
+                rec(y)
+    rec(doc)
+    return "".join(out)
 
 
 def tokens(doc):
